@@ -100,6 +100,35 @@ def check_before_first_onset(ctx, tz, label, z, pz, first_year):
             if got != (pz.stdoff, pz.std, D.timedelta(0)):
                 ctx.violation('before-first-onset', {'zone': label, 'wall': w.isoformat()}, 'got %r, the first STANDARD component is (%d, %r)' % (got, pz.stdoff, pz.std))
             ctx.count('before_first_onset_probes')
+            # ... and the same from the UTC side: the conversion uses that component too and comes back to the instant
+            u = w.replace(tzinfo=tz.UTC)
+            l = u.astimezone(z)
+            if l.utcoffset() != D.timedelta(seconds=pz.stdoff) or l.replace(tzinfo=None) - w != D.timedelta(seconds=pz.stdoff) or l.astimezone(tz.UTC) != u:
+                ctx.violation('before-first-onset', {'zone': label, 'utc': w.isoformat()},
+                              'UTC %s converts to %s (utcoffset %s), the first STANDARD component has %d s; back-conversion %s'
+                              % (w.isoformat(), l.replace(tzinfo=None).isoformat(), l.utcoffset(), pz.stdoff, l.astimezone(tz.UTC).replace(tzinfo=None).isoformat()))
+
+
+def check_after_list_end(ctx, tz, label, text, pz, first_year, nyears):
+    """onsets given as DTSTART + RDATE lists: after the last listed onset its observance stays in force - asked as the
+    very first query of a fresh zone object (list lengths at and around the recurrence cache's fill batch)"""
+    last_year = first_year + nyears - 1
+    last = max(pz.transitions(last_year))
+    exp = pz.at(last + D.timedelta(days=1))
+    for days in (30, 200, 800):
+        u = last + D.timedelta(days=days)
+        z = tz.tzical(io.StringIO(text)).get()
+        ctx.ev()
+        ctx.count('after_list_end_probes')
+        ctx.distinct('after-list|%d|%d' % (nyears, days))
+        try:
+            got = answers_at(z, u, tz.UTC)
+        except Exception as ex:
+            ctx.violation('conversion-raised', {'zone': label, 'utc': u.isoformat(), 'listed_onsets_per_component': nyears}, '%s: %s' % (type(ex).__name__, ex))
+            continue
+        if got[1] != exp[0] or got[2] != exp[1]:
+            ctx.violation('after-last-listed-onset', {'zone': label, 'utc': u.isoformat(), 'listed_onsets_per_component': nyears},
+                          'got offset %d %r, the last listed observance has %d %r' % (got[1], got[2], exp[0], exp[1]))
 
 
 def check_first_year(ctx, tz, label, z, pz, first_year):
@@ -402,10 +431,11 @@ def run(ctx):
             order = rng.choice(['SD', 'DS'])
             fold_at = rng.choice([None, None, 20, 40, 60])
             rdate = rng.random() < .25
-            first_year = 2010 if rdate else rng.choice([1990, 2000, 2015])
+            nyears = rng.choice([15, 9, 10, 11, 20, 21]) if rdate else None      # listed onsets per component incl. DTSTART
+            first_year = (2024 - nyears) if rdate else rng.choice([1990, 2000, 2015])
             shape = '%s|%s|%s' % (order, 'folded' if fold_at else 'flat', 'rdate' if rdate else 'rrule')
             try:
-                text = tzzoo.vtimezone_text(pz, first_year=first_year, order=order, fold_at=fold_at, as_rdate_years=15 if rdate else None)
+                text = tzzoo.vtimezone_text(pz, first_year=first_year, order=order, fold_at=fold_at, as_rdate_years=nyears if rdate else None)
                 z = tz.tzical(io.StringIO(text)).get()
             except Exception as e:
                 ctx.violation('definition-rejected', {'tz': s, 'shape': shape}, '%s: %s' % (type(e).__name__, e))
@@ -426,6 +456,8 @@ def run(ctx):
             c05.check_zone(ctx, tz, label, 'tzical', z2, TM.PosixModel(pz, [2019, 2020, 2021]), rng)
             check_before_first_onset(ctx, tz, label, z2, pz, first_year)
             check_first_year(ctx, tz, label, tz.tzical(io.StringIO(text)).get(), pz, first_year)
+            if rdate:
+                check_after_list_end(ctx, tz, label, text, pz, first_year, nyears)
             if i % 4 == 0:
                 ctx.sample({'tz_string': s, 'shape': shape, 'vtimezone_head': text[:160]})
         check_malformed(ctx, tz)
@@ -435,6 +467,10 @@ def run(ctx):
         check_required_lines(ctx, tz)
         check_fold_positions(ctx, tz)
         pz = PZ.PosixZone('EST', -18000, 'EDT', -14400, ('M', 3, 2, 0), 7200, ('M', 11, 1, 0), 7200)
+        for n_onsets in (1, 2, 9, 10, 11, 19, 20, 21, 30):
+            for order in ('SD', 'DS'):
+                text = tzzoo.vtimezone_text(pz, first_year=2024 - n_onsets, order=order, as_rdate_years=n_onsets)
+                check_after_list_end(ctx, tz, 'tzical(EST5EDT)[%s|rdate x %d]' % (order, n_onsets), text, pz, 2024 - n_onsets, n_onsets)
         tz_sched.sweep(ctx, tz, pz, rng, 150 if ctx.tier == 'quick' else 2500)
         for k, v in hits.items():
             ctx.hit(k, v)
